@@ -40,7 +40,8 @@ double quantile(double* data,
 		int interp)
 {
   double m, pp;
-  npy_intp p;
+  double *buf;
+  npy_intp p, i;
 
   if ((r<0) || (r>1)){
     fprintf(stderr, "Ratio must be in [0,1], returning zero");
@@ -49,6 +50,12 @@ double quantile(double* data,
 
   if (size == 1)
     return data[0];
+
+  /* NaNs cannot be ordered and the partition loops below may never
+     terminate on them: propagate the NaN, as numpy.quantile does */
+  for (i=0, buf=data; i<size; i++, buf+=stride)
+    if (*buf != *buf)
+      return *buf;
 
   /* Find the smallest index p so that p >= r * size */
   if (!interp) {
